@@ -60,6 +60,8 @@ type Engine struct {
 	lemmas    map[string]*Axiom
 	axPkg     map[*Axiom]*packages.Package
 	onwrites  map[string][]*OnWrite // "pkgpath.Type.field"
+	typedRefs bool                  // typedrefs clause seen: allocation and typed reads record dyntype (typedrefs.go)
+	inlineObj map[string]bool       // "pkgpath.Type.field": struct-valued fields modelled as fixed sub-objects (inlineobj.go)
 	onsends   []*OnSend
 	funcs     map[string]*FuncInfo // full key -> info (module functions with bodies)
 	litKey    map[*ast.FuncLit]string
@@ -195,6 +197,18 @@ func (e *Engine) addContractSet(cs *ContractSet, p *packages.Package) error {
 	}
 	for _, o := range cs.Transparent {
 		e.d.transparent[o] = true
+	}
+	if cs.TypedRefs {
+		e.typedRefs = true
+	}
+	for _, o := range cs.InlineObj {
+		if p == nil {
+			return fmt.Errorf("inlineobj %s outside a package contract file", o)
+		}
+		if e.inlineObj == nil {
+			e.inlineObj = map[string]bool{}
+		}
+		e.inlineObj[p.PkgPath+"."+o] = true
 	}
 	for _, g := range cs.Ghosts {
 		if _, dup := e.ghosts[g.Name]; dup {
